@@ -164,10 +164,11 @@ class _HyperVolume:
                     qCargo[dimIndex] - qPrevDimIndex.cargo[dimIndex]
                 )
             else:
+                # area[i] is the running product of the first i side lengths of the box
+                # spanned by q (each entry uses the entry just computed).
                 qArea[0] = 1
-                qArea[1 : dimIndex + 1] = [
-                    qArea[i] * -qCargo[i] for i in range(dimIndex)
-                ]
+                for i in range(dimIndex):
+                    qArea[i + 1] = qArea[i] * -qCargo[i]
             q.volume[dimIndex] = hvol
             if q.ignore >= dimIndex:
                 qArea[dimIndex] = qPrevDimIndex.area[dimIndex]
